@@ -13,6 +13,7 @@ Inductive answer :=
 | ATexts (l : list text)           (* a list of str *)
 | ATriple (a b c : text)
 | ARaise (e : exn)                 (* the exception class, mapped to the small enum *)
+| ANonStr                          (* an object that is not a str *)
 | AOutcome (o : next_step_outcome).
 
 Fixpoint teqs (a b : list text) : bool :=
@@ -65,6 +66,7 @@ Inductive helper :=
 | HUserIntent | HNextStep | HBotMessage | HGeneral | HSingleCall
 | HIndent            (* textwrap.indent(s, "  ") through wrap_flow with id "f" *)
 | HSplit1 | HValueText (* the text handed to literal_eval by the v2 generate_value; 2nd input = last prompt line *)
+| HCtxUtter (v : ctxval)   (* generate_bot_message for the bot intent `$name`, name holding v *)
 | HShrink (blank_rejected : bool) (accepted_lengths : list nat).
    (* oracle: a candidate is accepted iff its number of lines is listed (and, when the source
       validates the wrapped flow, its body is not blank) *)
@@ -98,6 +100,13 @@ Definition check_case (c : helper * text * text * answer) : bool :=
   | HIndent => ans_text (Ok (wrap_flow (s2t "f") s)) a
   | HSplit1 => match a with ATexts l => teqs (split1_space s) l | _ => false end
   | HValueText => ans_text (value_text s2 s) a
+  | HCtxUtter v =>
+      match ctx_utterance clean_guarded v, a with
+      | Ok (inl t), AText t' => teq t t'
+      | Ok (inr _), ANonStr => true
+      | Err e, ARaise e' => exn_eqb e e'
+      | _, _ => false
+      end
   | HShrink br lens =>
       let acc := fun ls : list text =>
         (negb br || negb (blank (join_nl ls))) && existsb (Nat.eqb (List.length ls)) lens in
@@ -107,6 +116,11 @@ Definition check_case (c : helper * text * text * answer) : bool :=
       | _, _ => false
       end
   end.
+
+(* _is_supported_value on one generated value: the model (with the key check as in the source)
+   against the real function *)
+Definition check_value_case (c : pyv * bool) : bool :=
+  Bool.eqb (supported_value value_keys_checked (fst c)) (snd c).
 
 (* (T) the literals of the model are the ones in the source *)
 Definition consts_agree : bool :=
